@@ -176,6 +176,19 @@ func wrapCallsWith(f *ssa.Function, ctors ...string) []ssa.CallInstruction {
 				if rt.Kind == "call" && contains(ctors, rt.Desc) {
 					good = true
 				}
+				// the callback that builds the reader as a method value / named function of this package
+				if cc, isCall := rt.Call.(*ssa.Call); isCall && rt.Kind == "call" {
+					for _, m := range funcValuesOf(cc.Call.Value) {
+						if m == nil || m.Pkg != f.Pkg || len(m.Blocks) == 0 {
+							continue
+						}
+						for _, ic := range callsIn(m) {
+							if contains(ctors, calleeName(ic)) {
+								good = true
+							}
+						}
+					}
+				}
 			}
 		}
 		if good {
@@ -375,12 +388,22 @@ func c02ClosureErr(p *Program, r *Report, f *ssa.Function, ctor string) {
 	// f itself and the closures it creates (its own literals and those of helpers inlined into it)
 	cls := []*ssa.Function{f}
 	seenCl := map[*ssa.Function]bool{f: true}
+	boundObj := map[*ssa.Function]ssa.Value{} // method value -> the object (address) it is bound to in f
 	for _, b := range f.Blocks {
 		for _, in := range b.Instrs {
 			if mc, isMC := in.(*ssa.MakeClosure); isMC {
 				if g, ok := mc.Fn.(*ssa.Function); ok && !seenCl[g] {
 					seenCl[g] = true
 					cls = append(cls, g)
+				}
+				// a method value standing where the function literal stood: the bound method, with the object
+				// it is bound to
+				for _, m := range funcValuesOf(mc) {
+					if m != nil && !seenCl[m] && m.Pkg == f.Pkg && m.Signature.Recv() != nil && len(mc.Bindings) == 1 {
+						seenCl[m] = true
+						cls = append(cls, m)
+						boundObj[m] = mc.Bindings[0]
+					}
 				}
 			}
 		}
@@ -426,6 +449,19 @@ func c02ClosureErr(p *Program, r *Report, f *ssa.Function, ctor string) {
 					// the cell in f: a local of f, or the variable the closure captured
 					var cell ssa.Value
 					switch ad := st.Addr.(type) {
+					case *ssa.FieldAddr:
+						// the method reports through a field of its receiver: the same field of the bound object in f
+						if obj := boundObj[cl]; obj != nil && len(cl.Params) > 0 && ad.X == ssa.Value(cl.Params[0]) && obj.Referrers() != nil {
+							for _, oref := range *obj.Referrers() {
+								if fa2, isFA := oref.(*ssa.FieldAddr); isFA && fa2.Field == ad.Field && fa2.Referrers() != nil {
+									for _, cref := range *fa2.Referrers() {
+										if ld, isLd := cref.(*ssa.UnOp); isLd && ld.Op == token.MUL && refuses(ld) {
+											ok = true
+										}
+									}
+								}
+							}
+						}
 					case *ssa.Alloc:
 						if cl == f {
 							cell = ad
